@@ -16,7 +16,7 @@ import c18_util as U
 import equivcheck as EQ
 
 LEVEL = "proof"
-RULE = ("strings: str(Expr) of real derivations (ground-state energies / "
+RULE = ("strings: corpus/C18.json (inputs of repaired defects) first, then str(Expr) of real derivations (ground-state energies / "
         "amplitudes / wave function, ph,ph secular matrix and precursor "
         "states, after expand(), with use_symbolic_denominators, after "
         "transform_to_spatial_orbitals) and of generated expressions (every "
@@ -129,6 +129,40 @@ def importer():
 
 # ---------------------------------------------------------------------------
 # inputs
+def corpus_exprs(ctx):
+    """inputs of repaired defects (corpus/C18.json), run first"""
+    import json
+    import os
+    import adcgen
+    path = os.path.join(os.path.dirname(os.path.dirname(os.path.dirname(
+        os.path.abspath(__file__)))), "corpus", "C18.json")
+    out = []
+    if not os.path.exists(path):
+        ctx.obligation("corpus/C18.json present", False, path)
+        return out
+    gs = None
+    for item in json.load(open(path)):
+        lab = item["label"]
+        if "latex" in item:
+            E = Expr(importer()(item["latex"]).sympy,
+                     real=item.get("real", False))
+            if item.get("symden"):
+                E = E.expand().use_symbolic_denominators()
+            out.append((lab, E))
+        else:
+            kind, order, space, idx = item["derive"]
+            gs = gs or adcgen.GroundState(adcgen.Operators())
+            E = Expr(getattr(gs, kind)(order, space, idx), real=True).expand()
+            ROOT_TARGETS[lab] = idx
+            out.append((lab, E))
+            try:
+                out.append((lab + ":symden",
+                            E.copy().use_symbolic_denominators()))
+            except Exception as ex:
+                ctx.note(f"{lab}: use_symbolic_denominators raised {ex!r}")
+    return out
+
+
 def derivation_exprs(ctx, quick):
     import adcgen
     out = []
@@ -177,10 +211,10 @@ def derivation_exprs(ctx, quick):
         add(f"M{order}_ph_ph",
             m.isr_matrix_block(order, "ph,ph", ("ia", "jb")),
             spatial=("iajb", ("aaaa", "aaaa")))
+    add("t2_2", gs.amplitude(2, "pphh", "ijab"),
+        spatial=("ijab", ("abab", "abab")))
     if not quick:
         add("E3", gs.energy(3), spatial=("", ("", "")))
-        add("t2_2", gs.amplitude(2, "pphh", "ijab"),
-            spatial=("ijab", ("abab", "abab")))
         add("M2_ph_ph", m.isr_matrix_block(2, "ph,ph", ("ia", "jb")),
             spatial=("iajb", ("abab", "aaaa")))
         add("M1_ph_pphh", m.isr_matrix_block(1, "ph,pphh", ("ia", "jkbc")))
@@ -454,7 +488,7 @@ def run(ctx):
                    vals and vals[0] == "true", str(vals))
 
     # ---------------- valid expressions --------------------------------------
-    exprs = fixed_exprs() + derivation_exprs(ctx, quick) + \
+    exprs = corpus_exprs(ctx) + fixed_exprs() + derivation_exprs(ctx, quick) + \
         generated_exprs(ctx, 250 if quick else 1500)
     # not expanded: outside the property's quantifier, used for the
     # model/implementation correspondence only
@@ -467,7 +501,8 @@ def run(ctx):
         seen.add(s)
         # the property is about expanded expressions
         strict = (not label.startswith("raw")
-                  and S(E.sympy).expand() == E.sympy)
+                  and (label.startswith("corpus")
+                       or S(E.sympy).expand() == E.sympy))
         cases.append({"label": label, "E": E, "s": s, "strict": strict})
     ctx.extra["campaign_strings"] = len(cases)
     ctx.extra["campaign_strings_expanded"] = sum(c["strict"] for c in cases)
